@@ -54,7 +54,7 @@ def harness_body(case, rec, cap, budget):
     cj['_combo'] = [problem, dom]
     B = lambda c: 'C03/%s_%s/%s' % (problem, dom, c)
     try:
-        live = Live(spec)
+        live = Live(spec, min_hx=1e-4)
         for op in case['ops']:
             if len(live.mesh.leaf_elements) >= cap:
                 break
